@@ -6,7 +6,9 @@
  * has a cause issued after the wait began (sigs > gen).
  * args: seed= progs= nw= pattern=(0 any,1 bb,2 turnstile,3 gate,4 pingpong)
  */
+#ifndef _GNU_SOURCE
 #define _GNU_SOURCE
+#endif
 #include "hkm.h"
 
 typedef struct { myth_mutex_t m; _Atomic int occ; } hmx_t;
